@@ -1283,6 +1283,9 @@ func c11CloseHandleFacts(r *Repo, w *Lean, kinds []c11Kind) error {
 	if err := c11PipelineReloadFacts(r, w); err != nil {
 		return err
 	}
+	if err := c11RouteHandlerFacts(r, w); err != nil {
+		return err
+	}
 	return c11ValidatorFreshCache(r, w)
 }
 
@@ -1584,4 +1587,89 @@ func c11KafkaSendGuarded(r *Repo, rel, typ string) (bool, string) {
 	}
 	walk(hd.Body.List)
 	return sends > 0 && sends == good, fmt.Sprintf("sends on Input(): %d, guarded: %d, flags set by Close: %d", sends, good, len(flags))
+}
+
+// c11RouteHandlerFacts (final round): the handler behind a route is looked up per request.
+//   - `<recv>.muxMapper.GetHandler(…)` is called by a TOP-LEVEL statement of muxInstance.serveHTTP (so on
+//     every request that reaches that point, cache hit or miss — not inside a branch, not in a helper);
+//   - the struct type `route` (what the route cache stores) has no field that could hold a handler:
+//     no atomic.Value / sync.* / interface / func / context.Handler typed field.
+func c11RouteHandlerFacts(r *Repo, w *Lean) error {
+	const rel = c11MuxDir + "/mux.go"
+	fd, err := r.Func(rel, "muxInstance", "serveHTTP")
+	if err != nil {
+		return err
+	}
+	top, all := 0, 0
+	for _, st := range fd.Body.List {
+		direct := false
+		switch t := st.(type) {
+		case *ast.AssignStmt:
+			for _, rhs := range t.Rhs {
+				if ce, ok := rhs.(*ast.CallExpr); ok && strings.HasSuffix(r.Src(ce.Fun), ".muxMapper.GetHandler") {
+					direct = true
+				}
+			}
+		case *ast.ExprStmt:
+			if ce, ok := t.X.(*ast.CallExpr); ok && strings.HasSuffix(r.Src(ce.Fun), ".muxMapper.GetHandler") {
+				direct = true
+			}
+		}
+		if direct {
+			top++
+		}
+	}
+	ast.Inspect(fd.Body, func(n ast.Node) bool {
+		if ce, ok := n.(*ast.CallExpr); ok && strings.HasSuffix(r.Src(ce.Fun), ".GetHandler") {
+			all++
+		}
+		return true
+	})
+	f, err := r.File(rel)
+	if err != nil {
+		return err
+	}
+	var fields, holders []string
+	found := false
+	ast.Inspect(f, func(n ast.Node) bool {
+		ts, ok := n.(*ast.TypeSpec)
+		if !ok || ts.Name.Name != "route" {
+			return true
+		}
+		st, ok := ts.Type.(*ast.StructType)
+		if !ok {
+			return true
+		}
+		found = true
+		for _, fl := range st.Fields.List {
+			ty := r.Src(fl.Type)
+			names := []string{"(embedded)"}
+			if len(fl.Names) > 0 {
+				names = nil
+				for _, nm := range fl.Names {
+					names = append(names, nm.Name)
+				}
+			}
+			for _, nm := range names {
+				fields = append(fields, nm+": "+ty)
+				if strings.Contains(ty, "atomic.") || strings.Contains(ty, "sync.") || strings.Contains(ty, "interface") ||
+					strings.Contains(ty, "func(") || strings.Contains(ty, "Handler") {
+					holders = append(holders, nm+": "+ty)
+				}
+			}
+		}
+		return true
+	})
+	if !found {
+		return fmt.Errorf("%s: struct type route not found", rel)
+	}
+	w.Line("/-- top-level statements of `muxInstance.serveHTTP` that call `….muxMapper.GetHandler(…)` directly. -/")
+	w.Line("def serveHTTPGetHandlerTopLevel : Nat := %d", top)
+	w.Line("/-- all `….GetHandler(…)` calls in `muxInstance.serveHTTP`. -/")
+	w.Line("def serveHTTPGetHandlerCalls : Nat := %d", all)
+	w.Line("/-- fields of the cached `route` struct. -/")
+	w.Line("def routeFields : List String := %s", StrList(fields))
+	w.Line("/-- … those whose type could hold a handler (atomic.* / sync.* / interface / func / …Handler). -/")
+	w.Line("def routeHandlerHolderFields : List String := %s", StrList(holders))
+	return nil
 }
